@@ -189,6 +189,7 @@ harnesses! {
     e2n_bigint_narrowing [native 0] => e2n::bigint_narrowing;
     e2n_bigint_form [native 0] => e2n::bigint_form;
     e2n_c03_struct_forms [native 0] => c03n::c03_struct_forms;
+    e2n_c03_change_zero_quantities [native 0] => battery::c03_change_zero_quantities;
     e2n_value_compare [native 0] => e2n::value_compare;
     e2n_c11_byron_attributes [native 0] => e2n::c11_byron_attributes;
     e2n_value_arith [native 0] => e2n::value_arith;
